@@ -28,7 +28,9 @@ import (
 // FailPlan scripts the downstream sender of one exchange.
 type FailPlan struct {
 	FailH, FailD, FailT bool // AppendHeaders / AppendData / AppendTrailers return an error
-	ResetIn             byte // 'h' | 'd' | 't': the client's reset is delivered from inside that call; 0 = never
+	// ResetIn: 'h' | 'd' | 't': the client's reset of the downstream stream is delivered from inside that call;
+	// 'H' | 'D' | 'T': the close event of the downstream connection (proxy.onDownstreamEvent) is delivered from inside it; 0 = never
+	ResetIn byte
 }
 
 var errWriteFailed = errors.New("px: scripted write failure")
@@ -41,6 +43,9 @@ type failSender struct {
 func (s *failSender) resetInside(part byte) {
 	if s.plan.ResetIn == part {
 		s.downSender.peerReset(types.StreamConnectionTermination)
+	}
+	if s.plan.ResetIn == part-'a'+'A' {
+		s.downSender.ex.f.ConnClose()
 	}
 }
 
